@@ -256,6 +256,62 @@ impl G {
     }
 }
 
+const ABSENT: i64 = 2_000_000_000;
+const BIG: i64 = 1_073_741_824;
+const MAXI: i64 = 9_007_199_254_740_991;
+/// The specification's 32-bit encoding of an integer (JPSyntax.tla: BIG stands for 2^53-1).
+fn enc_int(i: i64) -> i64 {
+    if i.abs() <= 1_000_000 {
+        i
+    } else {
+        let d = i.abs() - MAXI;
+        let m = if (-2..=2).contains(&d) { BIG + d } else if d > 2 { BIG + 2 } else { BIG - 3 };
+        if i < 0 { -m } else { m }
+    }
+}
+fn enc_opt(v: &Value) -> i64 {
+    v.as_i64().map(enc_int).unwrap_or(ABSENT)
+}
+fn operand_sval(o: &Value) -> Option<SVal> {
+    match o["kind"].as_str()? {
+        "value" => SVal::from_value(&o["value"]),
+        "nothing" => Some(SVal::blank("nothing")),
+        _ => None,
+    }
+}
+
+/// Turns the raw hook events of one evaluation into the specification's encoding.
+fn internal_events(raw: Vec<String>, am: &AddrMap<Value>, by_addr: &std::collections::HashMap<usize, Loc>) -> Vec<Value> {
+    let _ = am;
+    let mut out = vec![];
+    for r in raw {
+        let Ok(e) = serde_json::from_str::<Value>(&r) else { continue };
+        match e["ev"].as_str() {
+            Some("slice") => {
+                let Some(len) = e["len"].as_u64() else { continue };
+                if len > 1000 { continue; }
+                out.push(json!({"ev": "slice", "len": len, "start": enc_opt(&e["start"]), "end": enc_opt(&e["end"]), "step": enc_opt(&e["step"]),
+                                "emitted": e["emitted"], "iters": e["iters"]}));
+            }
+            Some("cmp") => {
+                let (Some(l), Some(r), Some(res)) = (operand_sval(&e["operands"][0]), operand_sval(&e["operands"][1]), e["result"].as_bool()) else { continue };
+                out.push(json!({"ev": "cmp", "op": e["op"], "l": l, "r": r, "result": res}));
+            }
+            Some("seg") if e["depth"].as_u64() == Some(1) => {
+                let conv = |v: &Value| -> Option<Vec<Loc>> {
+                    v.as_array()?.iter().map(|a| by_addr.get(&(a.as_u64()? as usize)).cloned()).collect()
+                };
+                match (conv(&e["inp"]), conv(&e["out"])) {
+                    (Some(i), Some(o)) => out.push(json!({"ev": "seg", "k": e["k"], "inp": i, "out": o, "inside": true})),
+                    _ => out.push(json!({"ev": "seg", "k": e["k"], "inp": [], "out": [], "inside": false})),
+                }
+            }
+            _ => {}
+        }
+    }
+    out
+}
+
 fn main() {
     quiet_panics();
     let args: Vec<String> = std::env::args().collect();
@@ -285,10 +341,19 @@ fn main() {
                 let doc = g.doc(3);
                 let Some(sdoc) = SVal::from_value(&doc) else { continue };
                 let am = AddrMap::new(&doc);
+                let by_addr: std::collections::HashMap<usize, Loc> =
+                    am.locs.iter().filter_map(|l| verif_harness::addr::lookup(&doc, l).map(|v| (v as *const Value as usize, l.clone()))).collect();
                 for _ in 0..4 {
                     let q = { let q = g.query(); if g.r.gen_range(0..6) == 0 { g.mutate(q) } else { q } };
+                    #[cfg(jsonpath_rust_verif)]
+                    jsonpath_rust::verif::install();
                     let res = guarded(|| doc.query_with_path(&q));
+                    #[cfg(jsonpath_rust_verif)]
+                    let raw = jsonpath_rust::verif::take();
+                    #[cfg(not(jsonpath_rust_verif))]
+                    let raw: Vec<String> = vec![];
                     let mut e = json!({"ev": "eval", "id": ["eval", seed, k], "q": string_to_cps(&q), "doc": sdoc});
+                    e["internal"] = json!(internal_events(raw, &am, &by_addr));
                     match res {
                         Err(p) => { e["outcome"] = json!("panic"); e["detail"] = json!(p); }
                         Ok(Err(_)) => { e["outcome"] = json!("err"); }
